@@ -196,6 +196,7 @@ func (a *ancestorQuery) Select(t iterator) NodeNavigator {
 func (a *ancestorQuery) Evaluate(t iterator) interface{} {
 	a.Input.Evaluate(t)
 	a.iterator = nil
+	a.table = nil
 	return a
 }
 
@@ -582,6 +583,7 @@ func (f *followingQuery) Select(t iterator) NodeNavigator {
 
 func (f *followingQuery) Evaluate(t iterator) interface{} {
 	f.Input.Evaluate(t)
+	f.iterator = nil
 	return f
 }
 
@@ -671,6 +673,7 @@ func (p *precedingQuery) Select(t iterator) NodeNavigator {
 
 func (p *precedingQuery) Evaluate(t iterator) interface{} {
 	p.Input.Evaluate(t)
+	p.iterator = nil
 	return p
 }
 
